@@ -483,10 +483,24 @@ fn main() {
     let seed = args.u64("seed", 1);
     let n = args.usize("n", 100);
     let mut rng = Rng::new(seed ^ 0xC18);
+    let corpus: Vec<(usize, Vec<String>)> = std::fs::read_to_string(args.str("corpus", "/verif/corpus/C18/witnesses.json"))
+        .ok()
+        .and_then(|s| serde_json::from_str::<Vec<Value>>(&s).ok())
+        .map(|v| {
+            v.iter()
+                .filter_map(|e| {
+                    let t = e["tpl"].as_u64()? as usize;
+                    let a: Vec<String> = e["args"].as_array()?.iter().filter_map(|x| x.as_str().map(|s| s.to_string())).collect();
+                    if t < TEMPLATES.len() && a.len() == TEMPLATES[t].2.len() { Some((t, a)) } else { None }
+                })
+                .collect()
+        })
+        .unwrap_or_default();
     let cases = |rng: &mut Rng| -> Vec<(usize, Vec<String>)> {
-        FIXED
+        corpus
             .iter()
-            .map(|(t, a)| (*t, a.iter().map(|s| s.to_string()).collect()))
+            .cloned()
+            .chain(FIXED.iter().map(|(t, a)| (*t, a.iter().map(|s| s.to_string()).collect())))
             .chain((0..n).map(|_| gen_case(rng)))
             .collect()
     };
